@@ -22,6 +22,7 @@ inline thr::SchedConfig SchedCfgFrom(const Cfg & cfg)
    sc.strategy = (int) cfg.i("strategy", 0); sc.pSwitchPct = (int) cfg.i("pswitch", 30); sc.pctDepth = (int) cfg.i("pctd", 2); sc.pctSteps = (int) cfg.i("pcts", 300);
    sc.pTimeoutPct = (int) cfg.i("pto", 5); sc.schedSeed = (uint64_t) cfg.i("schedseed", 1); sc.stepCap = (uint64_t) cfg.i("stepcap", 40000);
    sc.realCv = (cfg.i("realcv", 0) != 0); sc.pSpuriousCvPct = (int) cfg.i("pspcv", 0); sc.pEintrPct = (int) cfg.i("peintr", 0);
+   sc.pOomPermille = (int) cfg.i("poom", 0);
    return sc;
 }
 inline void FillSchedStats(RunResult & res)
@@ -30,7 +31,7 @@ inline void FillSchedStats(RunResult & res)
    res.stats.inc("sched_decisions", s.steps); res.stats.inc("context_switches", s.switches); res.stats.inc("f.preempt", s.preemptions); res.stats.inc("f.timeout_fires", s.timeoutsFired);
    res.stats.inc("f.spurious_poll_wake", s.spuriousPolls); res.stats.inc("clock_advances", s.clockAdvances); res.stats.max("max.threads", s.maxThreads);
    if (s.preemptions <= 2) res.stats.inc("p.low_preemption_schedule");
-   res.stats.inc("cv_waits_real_condition_variable_code", s.cvWaits); res.stats.inc("cv_signals", s.cvSignals); res.stats.inc("f.spurious_condvar_wake", s.cvSpurious); res.stats.inc("f.eintr", s.eintrs); res.stats.inc("p.cv_signal_without_waiter", s.cvSignalsNoWaiter);
+   res.stats.inc("cv_waits_real_condition_variable_code", s.cvWaits); res.stats.inc("cv_signals", s.cvSignals); res.stats.inc("f.spurious_condvar_wake", s.cvSpurious); res.stats.inc("f.eintr", s.eintrs); res.stats.inc("f.allocation_failure", s.ooms); res.stats.inc("p.cv_signal_without_waiter", s.cvSignalsNoWaiter);
    res.hash = thr::DecisionHash();
    res.simMicros = thr::Now() - 1000000;
 }
@@ -54,6 +55,19 @@ inline Plan Gen(uint64_t seed)
    Rng cfg(seed, "config"), wl(seed, "workload");
    Plan p;
    const int threads = 2 + (int) cfg.below(3);
+   // one run in twelve: a crowd.  One thread holds the write lock while eight or more readers queue up behind it; when it lets go they all register as holders at once, which is when
+   // the lock's tables of executing threads outgrow their initial seven slots -- and, in these runs, when an allocation may fail (poom, per thousand; only inside acquire calls).
+   // An acquire that fails for lack of memory must leave the lock as it was; everybody else must still get the lock.  A last writer arrives after the crowd has gone.
+   Rng cr(seed, "crowd");
+   if (cr.oneIn(12))
+   {
+      const int readers = 8 + (int) cr.below(3);
+      p.push_back("cfg prop=C18 prefer=" + I(cfg.below(2)) + " threads=" + I(readers+2) + thrc::SchedCfgStr(cfg) + " poom=" + I(cr.oneIn(4) ? 0 : (50 + (int) cr.below(400))));
+      {std::string s = "prog 0 W"; const int ny = 6 + (int) cr.below(10); for (int i=0; i<ny; i++) s += " Y"; s += " w"; if (cr.oneIn(2)) s += " Y W Y w"; p.push_back(s);}
+      for (int t=1; t<=readers; t++) {std::string s = "prog " + I(t) + (cr.oneIn(4) ? " Y" : "") + " R" + (cr.oneIn(2) ? " Y" : "") + (cr.oneIn(6) ? " R r" : "") + " r"; p.push_back(s);}
+      {std::string s = "prog " + I(readers+1); const int ny = 4 + (int) cr.below(12); for (int i=0; i<ny; i++) s += " Y"; s += cr.oneIn(3) ? " DW100000 Y w" : " W Y w"; p.push_back(s);}
+      return p;
+   }
    p.push_back("cfg prop=C18 prefer=" + I(cfg.below(2)) + " threads=" + I(threads) + thrc::SchedCfgStr(cfg));
    const bool small = cfg.oneIn(3);   // the smallest programs get near-systematic schedule coverage
    for (int t=0; t<threads; t++)
@@ -126,7 +140,9 @@ inline void RunProgram(Ctx & cx, int t, const std::vector<std::string> & ops, Ru
       const bool plainReader = (!write)&&(before.reads == 0)&&(before.writes == 0);
       if ((cx.prefer)&&(plainReader)) for (auto & w : cx.waiting) if ((w.write)&&(!w.upgrade)&&(thr::StateOf(w.tid) == thr::ST_BL_COND)) writersWaitingBefore.push_back(std::make_pair(w.tid, w.began));   // (an upgrading thread may be parked re-taking its read locks: not counted)
       Ctx::Waiting wme = {t, write, ++cx.seq, upgrade}; cx.waiting.push_back(wme);
+      const uint32_t ooms0 = thr::OomsInjected(); thr::OomWindow(true);
       const status_t r = write ? cx.rw->LockReadWrite(deadline) : cx.rw->LockReadOnly(deadline);
+      thr::OomWindow(false); const bool oomHit = (thr::OomsInjected() > ooms0);
       // ---- scheduler-atomic from here to the end of this lambda (no hook point)
       for (size_t i=0; i<cx.waiting.size(); i++) if (cx.waiting[i].tid == t) {cx.waiting.erase(cx.waiting.begin()+(long) i); break;}
       if (timed) thr::LeaveTimedCall();
@@ -143,7 +159,8 @@ inline void RunProgram(Ctx & cx, int t, const std::vector<std::string> & ops, Ru
       }
       else
       {
-         if (!timed) thr::ReportAndExit("blocking_acquire_failed", std::string("an untimed ") + (write ? "LockReadWrite" : "LockReadOnly") + " returned " + r());
+         if ((oomHit)&&(r == B_OUT_OF_MEMORY)) res.stats.inc("p.acquire_failed_for_lack_of_memory");   // (legitimate: the lock must then be as it was, which the invariant and the rest of the run check)
+         else if (!timed) thr::ReportAndExit("blocking_acquire_failed", std::string("an untimed ") + (write ? "LockReadWrite" : "LockReadOnly") + " returned " + r());
          res.stats.inc("p.timed_or_try_failed");
          if (upgrade) res.stats.inc("p.upgrade_failed");
       }
